@@ -22,9 +22,9 @@ from harness.common import exc_name
 
 PID = "C17"
 TITLE = "Flow iterators equal their Python reference (Slice is list slicing)"
-LEAN_MODULES = ["LenaModel.Props.C17", "LenaModel.Props.C17Ext", "LenaModel.Props.C17Adv"]
+LEAN_MODULES = ["LenaModel.Props.C17", "LenaModel.Props.C17Ext", "LenaModel.Props.C17Adv", "LenaModel.Props.C17Num"]
 LEAN_SOURCES = ["LenaModel/Model/C17.lean", "LenaModel/Model/C17Sess.lean", "LenaModel/Model/C17Ext.lean",
-                "LenaModel/Model/C17Adv.lean",
+                "LenaModel/Model/C17Adv.lean", "LenaModel/Model/C17Num.lean", "LenaModel/Props/C17Num.lean",
                 "LenaModel/Lemmas/C17.lean", "LenaModel/Lemmas/C17Sess.lean", "LenaModel/Props/C17.lean",
                 "LenaModel/Props/C17Ext.lean", "LenaModel/Props/C17Adv.lean"]
 DRIVER = "drivers/C17.lean"
@@ -82,12 +82,27 @@ THEOREMS = [
     "Lena.C17.reverse_natural",
     "Lena.C17.chain_natural",
     "Lena.C17.chunks_natural",
+    # seed round I/J.  CountFrom over numbers that are not ints: itertools.count(start, step) is REPEATED ADDITION in the
+    # arithmetic of its arguments (countFromG, any type with +): every value is the previous one plus step, and that
+    # determines the sequence; in exact arithmetic (any commutative ring; the rationals) it is start + i*step; over the
+    # integers it is the countFrom of the other theorems; a count over rationals with common denominator d is the
+    # integer count divided by d
+    "Lena.C17.countFromG_step",
+    "Lena.C17.countFromG_unique",
+    "Lena.C17.countFromG_exact",
+    "Lena.C17.countFromQ_spec",
+    "Lena.C17.countFromG_int",
+    "Lena.C17.countFromQ_scale",
 ]
 # Structural lemmas, bridges between executable and specification-side definitions, and statements that hold by the
 # way the model is written (a model whose `run` returns the instance unchanged keeps no state): audited for axioms,
 # NOT counted as proof obligations that carry the property.  That the real elements keep no state between runs is
 # established by the correspondence check and the oracle (sessions), not by these.
 AUX_THEOREMS = [
+    "Lena.C17.countFromG_length",
+    "Lena.C17.countFromG_head",
+    "Lena.C17.countFromG_hom",
+    "Lena.C17.rounding_add_differs",
     "Lena.C17.famEvents_append",
     "Lena.C17.eventsOf_append",
     "Lena.C17.objAfter_append",
@@ -142,6 +157,14 @@ TRUSTED = [
     "schedules of repeated and interleaved use, not on a theorem",
     "countFromInit / rcbInit (type checks at construction) receive isinstance(x, numbers.Number) / callable(x) from the "
     "harness: they record the branch structure only; float steps are one constructor (StepArg.float) of the model",
+    "CountFrom on floats: the Lean model has no IEEE arithmetic. countFromG (Model/C17Num.lean) is itertools.count's "
+    "repeated addition over any type with +; the theorems about floats are the laws of repeated addition "
+    "(countFromG_step / countFromG_unique), the closed form start + i*step is proved for exact arithmetic only "
+    "(countFromG_exact). The model (countFromQ, rationals) is asked exactly when CPython's arithmetic on the arguments "
+    "is exact for the values taken (ints, bools, Fractions, Decimals within the context precision, floats whose partial "
+    "sums are all representable - decided with the real itertools.count and Fractions, never with the element); all "
+    "other numeric cases (0.1, 1e17 + 0.5, nan, inf, complex, Decimal + float raising) are checked on the real code "
+    "against the real itertools.count of this CPython only (oracle), with == on the yielded values (nan equal to nan)",
     "the elements are driven directly (run / __call__ / fill_into), not through Sequence/Split; how the framework drives "
     "them is the business of C01/C05 and the bridge theorems",
     "copy.deepcopy of a Slice gives an object with an equal, separate state (Model/C17Adv.lean: a copy is the same "
@@ -173,9 +196,17 @@ ASSUMPTIONS = [
     "start and stop beyond +-sys.maxsize are outside the oracle (limits of islice/deque: LenaValueError at construction "
     "resp. OverflowError during run); they are modelled (mkSliceMS, sliceRunMS) and checked by the correspondence; the "
     "theorems about them carry the hypothesis InRange",
-    "Reverse on an endless flow (it must consume the whole flow) and CountFrom with non-integer numbers (floats are not "
-    "compared) are outside; __eq__/__repr__ and the LenaTypeError of RunningChunkBy.__init__ are outside the statement: "
-    "correspondence only",
+    "Reverse on an endless flow (it must consume the whole flow) is outside; __eq__/__repr__ and the LenaTypeError of "
+    "RunningChunkBy.__init__ are outside the statement: correspondence only",
+    "CountFrom(start, step) equals itertools.count(start, step) for EVERY pair of numbers the reference accepts (ints, "
+    "bools, int subclasses, floats incl. inf/nan/-0.0, Fractions, Decimals, complex, mixed pairs): the values are compared "
+    "with Python's == (exact across the numeric types; nan taken equal to nan), not the types (1 == 1.0 == True) and not "
+    "float bit patterns (0.0 == -0.0); where the arithmetic raises at some value (Decimal + float) the element must raise "
+    "the same exception class at the same value, where the reference cannot be constructed neither can the element",
+    "Slice indices / steps that are bools or int subclasses are integers (Python slicing accepts them: xs[True:] is "
+    "xs[1:], a step False is 0 and rejected) and inside the statement; objects that are only index-like (__index__ "
+    "without ordering / arithmetic) and float indices (xs[2.0:] is a TypeError in Python too) are outside: /repo raises "
+    "TypeError for them at construction or in run; not tested",
     "copies: the statement is taken to hold for every Slice object, also one obtained with copy.deepcopy from an object "
     "that has not been filled yet (how lena multiplies elements: init_bins(deepcopy=True), SplitIntoBins, vectorize) - "
     "oracle; what a deepcopy of an already FILLED Slice does (/repo: it continues from the position of the original; a "
@@ -224,7 +255,16 @@ RULE = ("quick and thorough: exhaustive enumeration of start,stop in {None,-7..7
         "the powers of two, steps 1000/1024/1025; fill_into/fill_trace 8; chunk sizes 1, 3, 1023, 1025, n-1, n, n+1; Chain "
         "long iterable first/last/split/after 40 short ones; sessions on flows of n, n/2+1, 7 values and on one shared "
         "list), model asked up to 1100 values. Thorough adds 12000 random cases of these families and 25 random lengths "
-        "up to 300000.")
+        "up to 300000. Seed round I/J (both tiers, deterministic): numbers that are not ints. CountFrom: 25 starts x 18 steps "
+        "(ints, bools, int subclass, floats 0.1/0.5/-2.75/1e17/2**53/1e308/-0.0/inf/-inf/nan, Fractions, Decimals incl. "
+        "NaN and 1E+30, complex, 10**17, 2**64; steps also 0.7, 1e-09, 1e300, 1.0) x 60 values, also CountFrom(a) and "
+        "CountFrom(step=s); 16 chosen pairs (rounding sums, a step swallowed by a huge start, dyadic floats, Fractions, "
+        "Decimals, bools, mixed) by keyword, for 1025 and 4097 values, under the six schedules and a long one, as twins and "
+        "as deepcopies; reference: the real itertools.count; the rational model is asked when the arithmetic is exact. "
+        "Flows whose values are numbers (kind num: floats incl. nan/inf/-0.0/1e17+16i, Fractions, Decimals, bools, complex) "
+        "for Slice.run whole scope (9 values), fill_into whole non-negative scope, Reverse, RunningChunkBy, Chain (all "
+        "the container-value families). Slice with bool / int-subclass start, stop, step (8 x 8 x 7 palette). Thorough "
+        "adds 6000 random numeric CountFrom cases (lengths to 3000, sessions).")
 CASE_TIMEOUT = 10
 
 
@@ -238,7 +278,7 @@ def _slice_cases(starts, stops, steps, lens):
 
 def gen_cases(ctx):
     """a generator (the shared machinery samples it lazily)"""
-    small = list(itertools.chain(_base_cases(), _reuse_cases(), _ext_cases(), _long_cases(), _adv_cases()))
+    small = list(itertools.chain(_base_cases(), _reuse_cases(), _ext_cases(), _long_cases(), _adv_cases(), _num_cases()))
     # the few expensive cases are spread over the list (the model requests are answered in consecutive blocks, in parallel)
     huge = list(_huge_cases(_HUGE))
     k = max(1, len(small) // (len(huge) + 1))
@@ -253,6 +293,7 @@ def gen_cases(ctx):
         yield from _random_cases(ctx.rng)
         yield from _random_long_cases(ctx.rng)
         yield from _random_adv_cases(ctx.rng)
+        yield from _random_num_cases(ctx.rng)
         yield from _huge_cases(sorted({1000 + _logu(ctx.rng, 300000) for _ in range(25)}), ctx.rng)
 
 
@@ -294,13 +335,15 @@ def _adv_cases():
                 yield {"op": "slice", "start": a, "stop": b, "step": st, "n": 6, "form": 3, "vk": "mixed"}
                 yield {"op": "slice", "start": a, "stop": b, "step": st, "n": 10, "form": 3, "vk": "pair", "flow": "list"}
                 yield {"op": "slice", "start": a, "stop": b, "step": st, "n": 7, "form": 3, "vk": "mixed", "flow": "tuple"}
+                yield dict({"op": "slice", "start": a, "stop": b, "step": st, "n": 9, "form": 3, "vk": "num"},
+                           **({"flow": ("list", "tuple")[st % 2]} if st else {}))
                 if st in (None, 2):
                     yield {"op": "slice", "start": a, "stop": b, "step": st, "n": 5, "form": 3, "vk": "list", "flow": "gen"}
                     yield {"op": "slice", "start": a, "stop": b, "step": st, "n": 8, "form": 3, "vk": "str", "flow": "deque"}
     for a in nn:
         for b in nn:
             for st in steps:
-                for n, vk in ((6, "mixed"), (10, "pair")):
+                for n, vk in ((6, "mixed"), (10, "pair"), (9, "num")):
                     yield {"op": "fill_into", "start": a, "stop": b, "step": st, "n": n, "vk": vk}
     for n in range(0, 13):
         for vk in LIFT_KINDS:
@@ -420,6 +463,91 @@ def _adv_cases():
     for a, b in ((-3, None), (None, -2), (-5, 4), (2, -1), (-4, -1)):
         for st in (None, 2):
             yield {"op": "fam", "start": a, "stop": b, "step": st, "tpl": "runs", "ops": _fam_ops("runs")}
+
+
+# ---- seed round I/J: numbers that are not ints ------------------------------------------------------------------
+# CountFrom(start, step) is itertools.count(start, step) for every kind of number the reference accepts.  Arguments
+# are written 'f:0.1' (float), 'F:1/3' (Fraction), 'D:0.1' (Decimal), 'b:1' (bool), 'I:5' (int subclass), 'c:1+2j'.
+NUM_STARTS = (0, 1, -3, "b:1", "b:0", "I:5", "f:0.1", "f:0.5", "f:-2.75", "f:1e17", 10 ** 17, 2 ** 53, "f:9007199254740992.0",
+              "f:1e308", "f:-0.0", "f:inf", "f:-inf", "f:nan", "F:1/3", "F:-7/2", "D:0.1", "D:1E+30", "D:NaN", "c:1+2j",
+              2 ** 64)
+NUM_STEPS = (1, 0, -2, "b:1", "I:3", "f:0.1", "f:0.5", "f:-0.3", "f:0.7", "f:1e-09", "f:1.0", "f:1e300", "f:inf",
+             "f:nan", "F:1/7", "D:0.2", "D:1E-30", "c:0.1j")
+# pairs whose count never raises and that are worth long runs / sessions / copies: rounding sums (0.1, 0.7), a step
+# swallowed by a huge start, exact dyadic floats, Fractions, Decimals, bools, mixed int/float
+NUM_PAIRS = ((0, "f:0.1"), (1, "f:0.1"), ("f:0.5", "f:0.7"), (10 ** 17, "f:0.5"), ("f:1e17", "f:0.5"), ("f:0.5", "f:0.25"),
+             ("f:-2.75", "f:-0.125"), ("F:1/3", "F:1/7"), ("D:0.1", "D:0.2"), ("b:1", "b:1"), ("I:5", "I:3"),
+             ("f:1e308", "f:1e307"), (3, "f:-0.3"), ("F:1/3", "f:0.1"), ("f:0.1", 1), ("c:1+2j", "c:0.1j"))
+
+
+def _num_cases():
+    """deterministic: the whole listed space is enumerated"""
+    for a in NUM_STARTS:
+        for st in NUM_STEPS:
+            yield {"op": "countfrom", "start": a, "step": st, "n": 60}
+        yield {"op": "countfrom", "start": a, "n": 60, "cf": "pos1"}
+    for st in NUM_STEPS:
+        yield {"op": "countfrom", "step": st, "n": 60, "cf": "kwstep"}
+    for a, st in NUM_PAIRS:
+        yield {"op": "countfrom", "start": a, "step": st, "n": 60, "cf": "kw"}
+        # long runs: a rewrite may follow the reference for a while (re-synchronise every block, compensate the sum)
+        for n in (1025, 4097):
+            yield {"op": "countfrom", "start": a, "step": st, "n": n}
+        base = {"op": "sess", "el": "countfrom", "start": a, "step": st}
+        for tpl in TEMPLATES:
+            yield dict(base, tpl=tpl + ":num", ops=[([] if isinstance(o, list) else o)
+                                                    for o in _schedule(base, tpl, (0, 0, 0))])
+        yield dict(base, tpl="long:num", ops=[[]] + [0] * 20 + [[]] + [1, 0] * 15 + [1] * 10)
+        yield {"op": "twins", "el": "countfrom", "start": a, "step": st, "n": 6, "n2": 4}
+        for pre in (None, 3):
+            yield dict({"op": "twins", "el": "countfrom", "start": a, "step": st, "n": 6, "n2": 4, "copy": "deep"},
+                       **({} if pre is None else {"pre": pre}))
+    # Slice: bools and int subclasses are integers for Python slicing (xs[True:] is xs[1:], xs[::False] a ValueError)
+    pal = (None, -3, 2, "b:1", "b:0", "I:3", "I:-2", "I:0")
+    for i, a in enumerate(pal):
+        for j, b in enumerate(pal):
+            for st in (None, 2, "b:1", "I:2", "b:0", "I:0", "I:-1"):
+                if any(isinstance(v, str) for v in (a, b, st)):
+                    yield {"op": "slice_args", "args": [a, b, st], "n": 7, "ctor": "Slice",
+                           "flow": ("iter", "list", "tuple")[(i + j) % 3]}
+    for b in pal[3:]:
+        yield {"op": "slice_args", "args": [b], "n": 7, "ctor": "Slice"}
+        yield {"op": "slice_args", "args": ["b:1", b], "n": 7, "ctor": "Slice", "flow": "list"}
+
+
+def _random_num_cases(rng):
+    kinds = ("int", "f", "f2", "F", "D", "b", "big")
+    def num(step):
+        k = rng.choice(kinds)
+        if k == "int":
+            return rng.randint(-50, 50)
+        if k == "f":
+            return "f:%r" % (rng.choice((1, -1)) * rng.random() * 10 ** rng.randint(-12, 18))
+        if k == "f2":
+            return "f:%r" % (rng.randint(-4000, 4000) / 2 ** rng.randint(0, 10))
+        if k == "F":
+            return "F:%d/%d" % (rng.randint(-99, 99), rng.randint(1, 99))
+        if k == "D":
+            return "D:%d.%03d" % (rng.randint(-99, 99), rng.randint(0, 999))
+        if k == "b":
+            return "b:%d" % rng.randint(0, 1)
+        return rng.choice((1, -1)) * 2 ** rng.randint(50, 70) + rng.randint(-2, 2)
+    for _ in range(6000):
+        a, st = num(False), num(True)
+        r = rng.random()
+        if r < 0.7:
+            yield {"op": "countfrom", "start": a, "step": st, "n": _logu(rng, 3000)}
+        elif _take(itertools.count(_dec(a), _dec(st)), 60)[1] is None:
+            # (the arithmetic of the pair never raises - decided on the reference: Decimal + float would)
+            base = {"op": "sess", "el": "countfrom", "start": a, "step": st, "tpl": "random:num"}
+            ops, ng = [], 0
+            for _ in range(rng.randint(2, 40)):
+                if ng == 0 or (ng < 4 and rng.random() < 0.15):
+                    ops.append([])
+                    ng += 1
+                else:
+                    ops.append(rng.randrange(ng))
+            yield dict(base, ops=ops)
 
 
 def _random_adv_cases(rng):
@@ -1058,7 +1186,7 @@ _FALSY = [0, None, False, "", (), 0.0, 7, None]
 # dicts, empty containers): an element that looks INTO the values (unpacks them, tests them for __iter__, flattens
 # them) breaks the property although flows of integers pass.  `_lift(vk, i)` is the value that stands at the place of
 # the integer i of the model's flow.
-LIFT_KINDS = ("pair", "list", "str", "mixed")
+LIFT_KINDS = ("pair", "list", "str", "mixed", "num")
 
 
 def _lift(vk, i):
@@ -1070,6 +1198,15 @@ def _lift(vk, i):
         return [i, [i]]
     if vk == "str":
         return "v%d" % i
+    if vk == "num":
+        # numbers that are not ints: floats (not representable sums, integral, huge, negative zero, nan, inf), Fractions,
+        # Decimals, bools, complex - an element that computes with the values, compares them, converts them (array('d'),
+        # int(v), sorted) or takes nan != nan / 0.0 == False for something shows here
+        import decimal
+        import fractions
+        return (i + 0.1, fractions.Fraction(i, 3), decimal.Decimal(i) / 8, float(i), bool(i % 3), float("nan"),
+                (float("inf") if i % 16 == 6 else -float(i)) if i else -0.0, complex(i, 1), 1e17 + 16 * i,
+                -0.0 if i % 20 == 9 else 0.1 * i)[i % 10]
     if vk == "mixed":
         return ((i, {"c": i}), [i, i], "w%d" % i, (i,), {"k": i}, frozenset((i,)), (), [], [[i]], ((i, i), (i,)))[i % 10]
     raise ValueError(vk)
@@ -1125,7 +1262,7 @@ def _triple(case):
 def _cf_call(ctor, case):
     """CountFrom / itertools.count called in the shape the case asks for: both arguments (default), none, one,
     by keyword, step only"""
-    a, s, shape = case.get("start"), case.get("step"), case.get("cf", "pos2")
+    a, s, shape = _dec(case.get("start")), _dec(case.get("step")), case.get("cf", "pos2")
     if shape == "none":
         return ctor()
     if shape == "pos1":
@@ -1233,9 +1370,17 @@ def run_impl(case):
             return {"e": exc_name(e), "phase": "run"}
     if op == "countfrom":
         try:
-            return {"r": list(itertools.islice(_cf_call(lena.flow.CountFrom, case)(), case["n"]))}
+            el = _cf_call(lena.flow.CountFrom, case)
+        except Exception as e:
+            return {"e": exc_name(e), "phase": "init"}
+        try:
+            vals, exc = _take(el(), case["n"])
         except Exception as e:
             return {"e": exc_name(e), "phase": "run"}
+        out = {"r": [_canon(v) for v in vals]}
+        if exc:
+            out["exc"] = exc        # the arithmetic of the arguments raised at this value (Decimal + float, ...)
+        return out
     if op == "chunks":
         cont = case["container"]
         try:
@@ -1499,7 +1644,123 @@ def _dec(v):
     if k == "F":
         import fractions
         return fractions.Fraction(x)
+    if k == "b":
+        return bool(int(x))
+    if k == "I":
+        return _MyInt(x)
+    if k == "D":
+        import decimal
+        return decimal.Decimal(x)
+    if k == "c":
+        return complex(x)
     raise ValueError(v)
+
+
+class _MyInt(int):
+    """an integer that is not exactly an `int` (a subclass, as bool is; numpy / enum integers in practice)"""
+
+
+def _intlike(a):
+    """an argument written 'b:1' (bool) or 'I:5' (int subclass): an integer for Python slicing and for the model"""
+    return isinstance(a, str) and a[:2] in ("b:", "I:")
+
+
+def _canon(v):
+    """The VALUE of a number in a JSON-able form: _canon(x) == _canon(y) iff x == y for ints, bools, floats, Fractions and
+    Decimals (Python compares these exactly, across the types: 1 == 1.0 == True, 0.0 == -0.0, Decimal('0.1') != 0.1),
+    with nan equal to nan.  No types, no float bit patterns: the statement speaks of equal values."""
+    import decimal
+    import fractions
+    import math
+    if isinstance(v, complex):
+        return _canon(v.real) if v.imag == 0 else ["c", _canon(v.real), _canon(v.imag)]
+    if isinstance(v, int):
+        return int(v)
+    if isinstance(v, float):
+        if math.isnan(v):
+            return "nan"
+        if math.isinf(v):
+            return "inf" if v > 0 else "-inf"
+        q = fractions.Fraction(v)
+    elif isinstance(v, decimal.Decimal):
+        if v.is_nan():
+            return "nan"
+        if v.is_infinite():
+            return "inf" if v > 0 else "-inf"
+        q = fractions.Fraction(v)
+    elif isinstance(v, fractions.Fraction):
+        q = v
+    else:
+        return f"{type(v).__name__}:{v!r}"
+    return int(q) if q.denominator == 1 else f"q:{q.numerator}/{q.denominator}"
+
+
+def _show_canon(c):
+    """a canonical value as shown in a failure text"""
+    if isinstance(c, str) and c.startswith("q:"):
+        import fractions
+        q = fractions.Fraction(c[2:])
+        return f"{float(q)!r} (exactly {c[2:]})" if fractions.Fraction(float(q)) == q else c[2:]
+    return repr(c)
+
+
+def _take(it, n):
+    """the first n values of an iterator and the class of the exception that ended it early (None: none)"""
+    out = []
+    try:
+        for _ in range(n):
+            out.append(next(it))
+    except StopIteration:
+        return out, "StopIteration"
+    except Exception as e:
+        return out, exc_name(e)
+    return out, None
+
+
+_CF_EXACT = {}
+
+
+def _cf_exact(case, n):
+    """(start, step) as Fractions if Python's own arithmetic on the arguments of this CountFrom case is exact for the
+    first n values (ints, bools, Fractions, Decimals within the context precision, floats whose partial sums are all
+    representable), else None.  Decided with the real itertools.count, never with the element under test.  Only then is
+    the (rational) model asked; the theorem countFromG_exact is about exact arithmetic."""
+    import decimal
+    import fractions
+    key = (repr(case.get("start")), repr(case.get("step")), case.get("cf"), n)
+    if key not in _CF_EXACT:
+        ans = None
+        try:
+            a, s = (_dec(v) for v in _cf_eff(case))
+            if all(isinstance(v, (int, float, fractions.Fraction, decimal.Decimal)) for v in (a, s)):
+                fa, fs = fractions.Fraction(a), fractions.Fraction(s)
+                it = itertools.count(a, s)
+                if all(fractions.Fraction(next(it)) == fa + i * fs for i in range(n)):
+                    ans = (fa, fs)
+        except Exception:
+            ans = None          # nan / inf / Decimal + float / overflow: not exact arithmetic
+        _CF_EXACT[key] = ans
+    return _CF_EXACT[key]
+
+
+def _cf_scaled(case, n):
+    """(A, S, d): the integer count A, A+S, ... divided by d is the count of the case (theorem countFromQ_scale);
+    None if the arithmetic is not exact"""
+    ex = _cf_exact(case, n)
+    if ex is None:
+        return None
+    import math
+    d = math.lcm(ex[0].denominator, ex[1].denominator)
+    return int(ex[0] * d), int(ex[1] * d), d
+
+
+def _cf_plain(case):
+    return all(type(v) is int for v in _cf_eff(case))
+
+
+def _sess_n(case):
+    """more values than any generator of a CountFrom session / twins case yields"""
+    return len(case.get("ops", ())) + 12
 
 
 _NT = {}
@@ -1699,6 +1960,8 @@ _REST_CAP = 20000     # longer than any finite flow of the generators; caps a mu
 def _encv_of(case):
     """encoder of the values a generator of the case's element yields: a chunk (RunningChunkBy) is encoded value by
     value, anything else is one value"""
+    if case.get("el") == "countfrom":
+        return _canon       # numbers: compared by value (ints stay ints)
     return _encs if case.get("el") == "chunks" else _enc
 
 
@@ -1790,7 +2053,15 @@ def model_requests(case):
         return [{"op": "chain", "xss": _chain_xss(case)}]
     if op == "countfrom":
         a, st = _cf_eff(case)
-        return [{"op": "countfrom", "start": a, "step": st, "n": case["n"]}]
+        if _cf_plain(case):
+            return [{"op": "countfrom", "start": a, "step": st, "n": case["n"]}]
+        if case["n"] > MODEL_MAX_LEN:
+            return []
+        ex = _cf_exact(case, case["n"])
+        if ex is None:
+            return []       # arithmetic that rounds / nan / inf / raises: the real itertools.count is the only reference
+        return [{"op": "countfrom_q", "start": [ex[0].numerator, ex[0].denominator],
+                 "step": [ex[1].numerator, ex[1].denominator], "n": case["n"]}]
     if op == "chunks":
         xs = list(range(case["n"]))
         return [{"op": "chunks", "cs": case["cs"], "xs": xs}, {"op": "windows", "cs": case["cs"], "xs": xs}]
@@ -1807,6 +2078,11 @@ def model_requests(case):
             req.update(xss=_chain_xss(case))
         elif el == "countfrom":
             a, st = _cf_eff(case)
+            if not _cf_plain(case):
+                sc = _cf_scaled(case, _sess_n(case))
+                if sc is None:
+                    return []
+                a, st = sc[0], sc[1]
             req.update(start=a, step=st, tail=3)
         fk = case.get("fk")
         if fk not in (None, "iter", "list", "tuple", "range", "gen"):
@@ -1827,6 +2103,11 @@ def model_requests(case):
             return [{"op": "chain", "xss": _chain_xss(case)}] * 2
         if el == "countfrom":
             a, st = _cf_eff(case)
+            if not _cf_plain(case):
+                sc = _cf_scaled(case, _sess_n(case))
+                if sc is None:
+                    return []
+                a, st = sc[0], sc[1]
             return [{"op": "countfrom", "start": a, "step": st, "n": 5}] * 2
         raise ValueError(el)
     if op == "fill_trace":
@@ -1847,6 +2128,9 @@ def model_requests(case):
     if op == "slice_args":
         if _islice_overflow(case):
             return []
+        if any(_intlike(a) for a in case["args"]):
+            # bools and int subclasses are integers (xs[True:] is xs[1:]): the model gets their integer values
+            case = dict(case, args=[int(_dec(a)) if _intlike(a) else a for a in case["args"]])
         if any(isinstance(a, str) for a in case["args"]):
             args = case["args"]
             if len(args) == 3 and not any(isinstance(a, str) for a in args[:2]):
@@ -1913,6 +2197,18 @@ def compare(case, res, replies):
         if [[fix(e) for e in r] for r in m["of"]] != per or m["alone"] != m["of"]:
             return f"Lean eventsOf {m['of']} / objEvents over lineage {m['alone']} vs the outcomes per object {per}"
         return None
+    if op == "countfrom":
+        if "e" in res or "exc" in res:
+            return f"impl raised {res} vs model {m} (exact arithmetic: nothing raises)"
+        if not _cf_plain(case):
+            # rationals [num, den] in lowest terms -> the canonical values; and the closed form of countFromQ_spec
+            import fractions
+            want = [_canon(fractions.Fraction(n_, d_)) for n_, d_ in m["r"]]
+            fa, fs = _cf_exact(case, case["n"])
+            if want != [_canon(fa + i * fs) for i in range(case["n"])]:
+                return f"Lean countFromQ {m['r']} differs from start + i*step in exact arithmetic"
+            m = {"r": want}
+        return None if res["r"] == m["r"] else f"impl {_sh(res['r'])} vs model {_sh(m['r'])}{_first_diff(res['r'], m['r'])}"
     m = _map_model(case, m)
     if "e" in res and op not in ("slice",):
         return f"impl raised {res} vs model {m}"
@@ -2020,10 +2316,16 @@ def _compare_reuse(case, res, replies):
 def _lift_reply(case, m):
     """the model runs a session on integers; with `vk` the real flows carry the lifted values"""
     vk = case.get("vk")
-    if vk in (None, "int"):
+    if case.get("el") == "countfrom" and not _cf_plain(case):
+        # the integer session model counts A, A+S, ...; the case counts A/d, (A+S)/d, ... (theorem countFromQ_scale)
+        import fractions
+        d = _cf_scaled(case, _sess_n(case))[2]
+        f = lambda z: _canon(fractions.Fraction(z, d))
+    elif vk in (None, "int"):
         return m
-    one = lambda i: _enc(_lift(vk, i))
-    f = (lambda c: [one(i) for i in c]) if case.get("el") == "chunks" else one
+    else:
+        one = lambda i: _enc(_lift(vk, i))
+        f = (lambda c: [one(i) for i in c]) if case.get("el") == "chunks" else one
     out = dict(m)
     if "ev" in m:
         out["ev"] = [[g, None if v is None else f(v)] for g, v in m["ev"]]
@@ -2056,7 +2358,7 @@ def _compare_ext(case, res, replies):
                 return f"impl {res} vs model {m}"
         elif "e" in res or res["r"] != m["r"]:
             return f"impl {res} vs model {m}"
-        if "repr" in res and res["repr"] != m["repr"]:
+        if "repr" in res and res["repr"] != m["repr"] and not any(_intlike(a) for a in case["args"]):
             return f"impl repr {res['repr']} vs model {m['repr']}"
         if "repr" in res and (case["ctor"] == "ISlice") != ("DeprecationWarning" in res["warn"]):
             return f"{case['ctor']}: warnings {res['warn']}"
@@ -2159,6 +2461,8 @@ def oracle(case, res):
         return _oracle_ext(case, res)
     if op == "fam":
         return _oracle_fam(case, res)
+    if op == "countfrom":
+        return _oracle_countfrom(case, res)
     if "e" in res:
         return f"{op} raised {res} (case {case})"
     if op == "chain_v":
@@ -2185,10 +2489,7 @@ def oracle(case, res):
         ref = list(itertools.chain(*_chain_xss(case)))
         return None if res["r"] == ref else f"Chain gives {res['r']}, itertools.chain = {ref}"
     if op == "countfrom":
-        ref = list(itertools.islice(_cf_call(itertools.count, case), case["n"]))
-        shape = {"none": "()", "pos1": f"({case.get('start')})", "kw": f"(start={case.get('start')}, step={case.get('step')})",
-                 "kwstep": f"(step={case.get('step')})"}.get(case.get("cf"), f"({case.get('start')}, {case.get('step')})")
-        return None if res["r"] == ref else f"CountFrom{shape} gives {res['r']}, itertools.count{shape} = {ref}"
+        return _oracle_countfrom(case, res)
     if op == "chunks":
         ref = _windows(case, vals=True)
         if res["r"] != ref:
@@ -2197,6 +2498,38 @@ def oracle(case, res):
         ch = _changed_input(case, res)
         return f"RunningChunkBy({case['cs']}).run(xs): {ch}" if ch else None
     raise ValueError(op)
+
+
+def _oracle_countfrom(case, res):
+    """CountFrom(start, step)() equals itertools.count(start, step): the real itertools.count, called with the same
+    arguments in the same shape, value by value with `==` (nan equal to nan) - for every kind of number the reference
+    accepts (ints, bools, floats, Fractions, Decimals, complex, mixed); where the arithmetic of the arguments raises
+    (Decimal + float) the element raises the same exception at the same value; where the reference cannot be built
+    neither can the element."""
+    show = lambda v: repr(_dec(v))
+    shape = {"none": "()", "pos1": f"({show(case.get('start'))})",
+             "kw": f"(start={show(case.get('start'))}, step={show(case.get('step'))})",
+             "kwstep": f"(step={show(case.get('step'))})"}.get(
+                 case.get("cf"), f"({show(case.get('start'))}, {show(case.get('step'))})")
+    try:
+        refit = _cf_call(itertools.count, case)
+    except Exception as e:
+        if res.get("e") == exc_name(e) and res.get("phase") == "init":
+            return None
+        return f"itertools.count{shape} raises {exc_name(e)} at construction, CountFrom{shape}: {res}"
+    if "e" in res:
+        return f"CountFrom{shape} raised {res}; itertools.count{shape} exists and yields"
+    vals, exc = _take(refit, case["n"])
+    ref = [_canon(v) for v in vals]
+    if res["r"] == ref and res.get("exc") == exc:
+        return None
+    k = next((i for i, (x, y) in enumerate(zip(res["r"], ref)) if x != y), min(len(res["r"]), len(ref)))
+    if k < len(res["r"]) and k < len(ref):
+        return (f"CountFrom{shape}(): value number {k} (from 0) is {_show_canon(res['r'][k])}, itertools.count{shape} "
+                f"gives {_show_canon(ref[k])}; first values {[_show_canon(c) for c in res['r'][:8]]} vs "
+                f"{[_show_canon(c) for c in ref[:8]]}")
+    return (f"CountFrom{shape}() yielded {len(res['r'])} values and then {res.get('exc')}, itertools.count{shape} "
+            f"{len(ref)} values and then {exc} (of {case['n']} asked for)")
 
 
 def _islice_overflow(case):
@@ -2525,7 +2858,9 @@ def _classify(case, res):
     if op in ("fill_trace", "fill2"):
         return [f"{op}:form{case.get('form', 3)}"]
     if op == "countfrom":
-        return ["countfrom:" + case.get("cf", "pos2")]
+        kinds = sorted({type(_dec(v)).__name__.lstrip("_") for v in _cf_eff(case)})
+        return ["countfrom:" + case.get("cf", "pos2"), "countfrom:numbers:" + "+".join(kinds)] + \
+               (["countfrom:raises-midway"] if "exc" in res else [])
     if op in ("reverse", "chunks"):
         return [op, "flow:" + case.get("flow", "iter")]
     return [op]
@@ -2615,10 +2950,15 @@ LEVEL_TEXT = ("Lean 4 theorems about a transcribed model of Slice/Reverse/Chain/
               "fills the slice of the values it is fed with) and naturality theorems (Slice.run on every branch, fill_into, "
               "Reverse, Chain, RunningChunkBy commute with any replacement of the values: they never look into them), "
               "exercised on flows of tuples/lists/strings/dicts; the caller's container is shared between runs and read "
-              "again after each run; flows of up to 131073 values in the quick tier.")
+              "again after each run; flows of up to 131073 values in the quick tier. Seed round I/J (Model/C17Num.lean, "
+              "Props/C17Num.lean): CountFrom for every kind of number - itertools.count is repeated addition in the "
+              "arithmetic of its arguments (countFromG over any type with +; the laws of repeated addition determine the "
+              "sequence), start + i*step in exact arithmetic (any commutative ring, the rationals), the integer model is "
+              "the instance for ints; floats whose arithmetic rounds are checked on the real code against the real "
+              "itertools.count only (value equality).")
 LEVEL_NOTE = ("Trusted: Lean kernel (+ propext, Classical.choice, Quot.sound), the hand transcription validated by the "
               "exhaustive-in-scope correspondence run, itertools/deque semantics as transcribed, the JSON protocol. "
-              "THEOREMS lists the 41 theorems that carry the property; 39 structural/bridging/definitional lemmas are in "
+              "THEOREMS lists the 47 theorems that carry the property; 43 structural/bridging/definitional lemmas are in "
               "AUX_THEOREMS (audited, not counted). Statelessness of the real elements between runs, that copies share "
               "nothing and that the caller's container is left unchanged are checked, not proved.")
 TECHNIQUE = "Lean 4 proof over hand-written model + exhaustive-in-scope correspondence check"
